@@ -97,6 +97,8 @@ def decode(data: bytes) -> dict:
     for _ in range(d.i(2, 14)):
         ln = gen_line(d, table, names)
         ln["s"] = d.i(0, case["nsess"] - 1)
+        if d.p(0.1):
+            ln["crlf"] = True
         case["lines"].append(ln)
     case["stop_phase"] = d.p(0.3)
     return case
@@ -216,7 +218,7 @@ class C18Engine(Engine):
                 before = snapshot(pool, groups) if nac else None
                 calls_before = len(hmod.calls)
                 was_blocked = bool(pending[i])
-                s.feed(ln["text"])
+                s.feed(ln["text"] + ("\r" if ln.get("crlf") else ""))      # some clients end lines with CRLF
                 pending[i].append(ln)
                 await settle()
                 collect()
